@@ -85,6 +85,7 @@ def gen(rng, tier, index):
     spec["how"] = gens.pick(rng, forms.CONFIGURE)
     spec["xform"] = gens.pick(rng, forms.PRESENT)
     spec["yform"] = gens.pick(rng, forms.PRESENT)
+    spec["clobber"] = bool(rng.random() < 0.5)
     spec["carry"] = gens.pick(rng, forms.CARRY)
     return {"spec": spec, "X": X, "y": y, "kind": kind, "unit": unit, "warm_at": warm_at, "decoy": decoy}
 
